@@ -136,11 +136,52 @@ def run(ctx):
                         warmed.add(v)
                 hist.append(dict(step='warm', views=['graph', 'igraph', 'segments']))
             dirty = False
+            typed_stale = set()   # id() of objects whose last modification was a direct edit (root/leaf/branch sets not claimed)
+            relatives = []      # objects the current neuron was derived from / produced together with (inputs left behind, other halves)
             for k in range(int(rng.integers(2, maxsteps + 1))):
-                kind = str(rng.choice(['warm', 'op', 'op', 'edit']))
+                kind = str(rng.choice(['warm', 'op', 'op', 'edit'] + (['relative', 'relative'] if relatives else [])))
                 after_direct = False
                 if len(x.nodes) < 2:
                     kind = 'edit'
+                if kind == 'relative':
+                    # an in-place operation (or a direct edit) on a RELATIVE must not reach the views of the current neuron
+                    ri = int(rng.integers(len(relatives)))
+                    r = relatives[ri]
+                    if len(r.nodes) < 2:
+                        continue
+                    inpl = [o for o in ops if skelops.OPS[o].inplace_kw]
+                    name = inpl[int(rng.integers(len(inpl)))]
+                    op = skelops.OPS[name]
+                    if rng.random() < 0.25:
+                        st, d = guarded(direct_edit, rng, r)
+                        typed_stale.add(id(r))
+                        hist.append(dict(step='relative-direct', relative=ri, **{k2: v2 for k2, v2 in (d.items() if st == 'ok' else []) if k2 != 'forest'}))
+                    else:
+                        st, p = guarded(op.gen, rng, r)
+                        if st != 'ok' or p is None:
+                            continue
+                        st, _ = guarded(op.apply, r, p, True)
+                        if st == 'ok':
+                            typed_stale.discard(id(r))
+                        hist.append(dict(step='relative-op', relative=ri, op=name, params=p, inplace=True, status=st))
+                    ctx.count('relative:' + name)
+                    # fall through: the current neuron's table is unchanged, every view must still describe it; then the relative itself
+                    for obj, what in ((x, 'current neuron after an in-place operation on a relative'), (r, 'relative after its own in-place operation')):
+                        st0, fr0 = guarded(fresh, obj)
+                        if st0 != 'ok':
+                            continue
+                        for v in list(TYPED) + [VIEWS[int(i)] for i in rng.choice(len(VIEWS), size=3, replace=False)] + ['graph']:
+                            if v in TYPED and id(obj) in typed_stale:
+                                continue
+                            s1, got = guarded(read_view, obj, v)
+                            s2, want = guarded(read_view, fr0, v)
+                            ctx.case((F.table_of(obj), str(hist[-3:]), v, what), nontrivial=True)
+                            ctx.count('view-relative:' + v)
+                            if s1 == 'ok' and s2 == 'ok' and not same(got, want):
+                                ctx.violation('cached view differs from a freshly constructed neuron (' + what + ')',
+                                              dict(start=f, backend=be, history=list(hist), view=v), dict(got=short(got), fresh=short(want)))
+                                break
+                    continue
                 if kind == 'warm':
                     vs = [VIEWS[int(i)] for i in rng.choice(len(VIEWS), size=int(rng.integers(1, 4)), replace=False)]
                     for v in vs:
@@ -179,6 +220,12 @@ def run(ctx):
                             nxt = nxt[0]
                         if len(nxt.nodes) == 0:
                             break
+                        typed_stale.discard(id(nxt))
+                        if nxt is not x:
+                            relatives.append(x)
+                        if isinstance(res, list):
+                            relatives.extend(o for o in res[1:] if hasattr(o, 'nodes') and o is not nxt and len(o.nodes))
+                        relatives = relatives[-3:]
                         x = nxt
                     dirty = True
                 else:
@@ -188,6 +235,7 @@ def run(ctx):
                         return
                     hist.append(dict(step='direct', **{k2: v2 for k2, v2 in d.items() if k2 != 'forest'}))
                     ctx.count('edit:' + d['edit'])
+                    typed_stale.add(id(x))
                     dirty = True
                     after_direct = True
                 # ---- read one random view first, then two more, compare with a fresh neuron
